@@ -57,6 +57,13 @@ def gen(rng):
         prog.append(("macro", "flagged", [], [("for", "q", 0, 2, [("if", "ONE", [("db", ["q"])], [("db", [0xEE])]), ("for", "r", 0, "ONE", [("db", [0xCC])])])]))
         prog.append(("block", [("apply", "flagged", [])]))
         prog.append(("block", [("block", [("if", "NEG", [("op", "nop")], [("op", "clc")])])]))
+    if rng.random() < 0.5:
+        # a definition written in a conditional block / loop body takes effect only when that block is assembled (DEBUG / RELEASE variants of one macro)
+        cond = rng.choice(["ZERO", "ONE", "UNDEFINED_NAME", 0, 2])
+        prog.append(("macro", "put", [], [("db", [0x11])]))
+        prog.append(("if", cond, [("macro", "put", [], [("db", [0x22])])], [("macro", "put", [], [("db", [0x33])])] if rng.random() < 0.5 else None))
+        prog.append(("for", "z", 0, rng.choice([0, 0, 1]), [("macro", "put", [], [("db", [0x44])])]))
+        prog.append(("apply", "put", []))
     prog.append(("db", ["x"]))  # the outer name is neither overwritten by, nor visible from, the iterations' own assignments
     return prog
 
